@@ -66,7 +66,7 @@ def make_content(S, P=2, C=1, sub=2, F=2, labels='equal', analog='full', extras=
             char_param('LABELS', alabels, label_len),
             char_param('DESCRIPTIONS', [S.text('ad', 2, 1 if symbolic_meta else 0) for _ in range(C)], 2),
             Param('GEN_SCALE', 4, [], [S.f32('gs')], [], False),
-            Param('SCALE', 4, [C], [S.f32('as') for _ in range(C)], [], False) if analog_lists == 'equal' else Param('SCALE', 4, [C + 1], [S.f32('as') for _ in range(C + 1)], [], False),
+            Param('SCALE', 4, [C], [S.f32('as') for _ in range(C)], [], False) if analog_lists == 'equal' else Param('SCALE', 4, [C + (3 if analog_lists == 'deviating3' else 1)], [S.f32('as') for _ in range(C + (3 if analog_lists == 'deviating3' else 1))], [], False),
             Param('OFFSET', 2, [C], [S.bv('ao', 16) for _ in range(C)], [], False),
             char_param('UNITS', [S.text('au', 1) for _ in range(C)] if analog_lists == 'equal' else [], 4),
             Param('RATE', 4, [], [F32(point_rate * (sub if sub else 1))], [], True),
